@@ -10,7 +10,11 @@ from harness.props import g1common as G
 def view(ex, info):
     els = [e for e, _ in ex.reach()]
     rows = []
+    from flatland.schema.base import Element
     for e in els:
+        if not isinstance(e, Element):
+            rows.append([ex.lab(e), [], None, ["raw:" + type(e).__name__]])
+            continue
         rows.append([ex.lab(e), [ex.lab(p) for p in ex.parents(e)], ex.lab(e.root),
                      [ex.lab(p) for p in itertools.islice(e.path, G.CHAIN_BOUND + 1)]])
     ac = [ex.lab(e) for e in itertools.islice(ex.root.all_children, G.REACH_BOUND)]
@@ -58,7 +62,11 @@ def check(ex, info):
         level = nxt
     if dup:
         fail("children-form-a-tree", "every element under one container, once", "an element is listed twice")
+    from flatland.schema.base import Element
     for e in order:
+        if not isinstance(e, Element):
+            fail("children-are-elements", "Element", type(e).__name__)
+            break
         chain = ex.parents(e)
         visible = [p for p in chain if not isinstance(p, Slot)]
         want = anc[id(e)]
@@ -267,6 +275,8 @@ class C08(Property):
         return super().compare(impl_obs, model_obs)
 
     def nontrivial(self, case, obs):
+        if any("view_raises" in st["view"] for st in obs["steps"]):
+            return True
         steps = obs["steps"]
         if max(len(s["view"]["els"]) for s in steps) < 4:
             return False
@@ -274,6 +284,8 @@ class C08(Property):
         return changed >= 3
 
     def tags(self, case, obs):
+        if any("view_raises" in st["view"] for st in obs["steps"]):
+            return ["view-raises"]
         t = ["root=" + case["schema"]["k"], "route=" + case["init"]["route"], "ops=%d" % min(20, len(case["ops"]))]
         steps = obs["steps"]
         t.append("maxsize=%d" % min(30, max(len(s["view"]["els"]) for s in steps)))
